@@ -460,6 +460,61 @@ pub fn h_c11_apply_wide(inp: &Inp) -> u8 {
     }
 }
 
+//@ harness props=C11 covers=3 name=PNCounter apply / merge with actor totals in {absent, 2^63, 2^64-1}: each direction keeps the larger total, merge is the per-actor maximum of both sides, the read is the exact difference
+#[no_mangle]
+pub fn h_c11_pn_apply_wide(inp: &Inp) -> u8 {
+    const W: [u64; 3] = [0, 1 << 63, u64::MAX];
+    let mut i = In::new(inp);
+    let mut p = [0u64; NAU];
+    let mut n = [0u64; NAU];
+    let mut q = [0u64; NAU];
+    let mut a = 0;
+    while a < NAU {
+        p[a] = W[i.below(3) as usize];
+        n[a] = W[i.below(3) as usize];
+        q[a] = W[i.below(3) as usize];
+        a += 1;
+    }
+    let a = i.below(NA) as usize;
+    let c = W[i.below(3) as usize];
+    let neg = i.bool();
+    if !i.ok {
+        return 2;
+    }
+    let diff = |x: &[u64; NAU], y: &[u64; NAU]| BigInt::from(wsum(x) as i128) - BigInt::from(wsum(y) as i128);
+    let same = |c: &PNCounter<u8>, x: &[u64; NAU], y: &[u64; NAU]| {
+        let (cp, cn) = pacc::parts(c);
+        vc_is(gacc::inner(cp), |z| x[z as usize]) && vc_is(gacc::inner(cn), |z| y[z as usize])
+    };
+    let mut pn = pacc::from_parts(wspec(&p), wspec(&n));
+    pn.apply(PnOp { dot: dot(a as u8, c), dir: if neg { Dir::Neg } else { Dir::Pos } });
+    let mut p2 = p;
+    let mut n2 = n;
+    if neg {
+        if c > n2[a] {
+            n2[a] = c;
+        }
+    } else if c > p2[a] {
+        p2[a] = c;
+    }
+    if !same(&pn, &p2, &n2) || pn.read() != diff(&p2, &n2) {
+        return 0;
+    }
+    // merge with a replica whose increments are q and whose decrements are p
+    let mut pm = pacc::from_parts(wspec(&p), wspec(&n));
+    pm.merge(pacc::from_parts(wspec(&q), wspec(&p)));
+    let pq = wmax(&p, &q);
+    let np = wmax(&n, &p);
+    if !same(&pm, &pq, &np) || pm.read() != diff(&pq, &np) {
+        return 0;
+    }
+    if wsum(&np) > wsum(&pq) && wsum(&np) > u64::MAX as u128 {
+        3 // negative read with a decrement sum beyond 2^64
+    } else {
+        1
+    }
+}
+
 /// number of ops in the register / set universes
 const NW: usize = 3;
 
